@@ -1,0 +1,36 @@
+//go:build verif
+
+// Contracts for the deductive verifier in /verif (govc). Comment-only: this file declares nothing and is
+// compiled only under the build tag `verif`. Syntax: see /verif/DESIGN.md §2.5.
+
+package consul
+
+//@ file acl.go
+
+// Identity and policy lookups go through caches, the state store and (in secondaries) RPCs; their effects are
+// outside the verified subset. ASSUMED contracts (empty: any result), listed as trusted in the evidence.
+//@ func ACLResolver.resolveIdentityFromToken
+//@ trusted
+//@ results id, err
+//@ func ACLResolver.resolvePoliciesForIdentity
+//@ trusted
+//@ results ps, err
+//@ func ACLResolver.resolveRolesForIdentity
+//@ trusted
+//@ results rs, err
+
+// An identity is handed out only after IsExpired was evaluated on that very identity, with a clock value read
+// in the same iteration, and was false - so a cached token is re-checked at every resolution.
+//@ func ACLResolver.resolveTokenToIdentityAndPolicies
+//@ props C09
+//@ results ident, policies, err
+//@ ensures[expired-never-honoured] err == nil ==> ident != nil && !ident.IsExpired(lastNow())
+//@ ensures[error-no-policies] err != nil ==> len(policies) == 0
+//@ loop 1 invariant[retries-carry-an-error] i >= 0 && (i > 0 ==> lastErr != nil)
+
+//@ func ACLResolver.resolveTokenToIdentityAndRoles
+//@ props C09
+//@ results ident, roles, err
+//@ ensures[expired-never-honoured] err == nil ==> ident != nil && !ident.IsExpired(lastNow())
+//@ ensures[error-no-roles] err != nil ==> len(roles) == 0
+//@ loop 1 invariant[retries-carry-an-error] i >= 0 && (i > 0 ==> lastErr != nil)
